@@ -134,10 +134,11 @@ def run_exact2(tier, seed, binary, ver):
             raise V.Broken('exact2 hang %r' % e)
         if e.get('ev') != 'exact2':
             continue
-        a = acc.setdefault(e['case']['id'], {'A': [0] * (kmax + 2), 'nonmono': 0, 'rej': 0})
+        a = acc.setdefault(e['case']['id'], {'A': [0] * (kmax + 2), 'nonmono': 0, 'rej': 0, 'nonfinite': 0})
         a['A'] = [x + int(y) for x, y in zip(a['A'], e['acc'])]
         a['nonmono'] += e['nonmonotone']
         a['rej'] += e['rejected_outright']
+        a['nonfinite'] += int(e.get('nonfinite', 0))
         calls += e['calls']
     worst = 0.0
     out = []
@@ -166,6 +167,15 @@ def run_exact2(tier, seed, binary, ver):
         w = float(max(dev.max(), cum_dev.max(), abs(tail_h - tail) / (2.0 ** -16 * tail + 2.0 ** -22)))
         worst = max(worst, w)
         out.append({'case': c['id'], 'exact_pmf_head': ph[:4].tolist(), 'reference_pmf_head': pm[:4].tolist(), 'worst_deviation_over_tolerance': w, 'zero_mass_a0': a['A'][0]})
+        # exact mass on NaN / infinite outputs against the law's mass beyond the largest f32 (Zeta documents infinite
+        # samples for s close to 1: then the reference mass is not negligible and this is judged like any tail)
+        nf_mass = a['nonfinite'] / tot
+        nf_ref = float(law.sf([3.4028234663852886e38])[0])
+        out[-1]['nonfinite_mass_exact'] = nf_mass
+        out[-1]['nonfinite_mass_reference'] = nf_ref
+        if nf_mass > 2.0 * nf_ref + 2.0 ** -40:
+            ver.add({'fam': c['fam'], 'ty': 'f32', 'kind': 'exact_nonfinite_mass', 'params': c['pv']},
+                    {'case': c['id'], 'exact_mass_on_nonfinite_outputs': nf_mass, 'reference_mass_beyond_f32_max': nf_ref, 'proposal_patterns_2p24': a['nonfinite'] / 2.0 ** 24})
         if w > 1.0 or a['A'][0] != 0:
             i = int(np.argmax(dev))
             ver.add({'fam': c['fam'], 'ty': 'f32', 'kind': 'exact_law_two_draw', 'params': c['pv']},
